@@ -31,7 +31,7 @@ def programs(tier):
     out = []
     R = receivers()
     for rn, (ty, val, w) in R.items():
-        tk = tykey(ty)
+        tk = tykey(ty).lstrip("%")
         # ---- inherent: x.im(a) and T::im(x, a)
         p = Program("c17_inh_" + rn.replace("[", "_").replace("]", ""))
         decls(p)
